@@ -15,6 +15,10 @@ structure Obs where
   /-- the SAME compiled expression of the minimal text evaluated a second time in a fresh frame (same process, globals
       restored): `""` when the harness did not observe it (old corpus lines) -/
   same : String := ""
+  /-- the text printed with the minimal parentheses the DOCUMENTED operator table (doc/17-language-reference.md "Operators", levels
+      1–13) requires — NOT the table read from the grammar of this build — compiled and evaluated: `""` when the harness did not
+      observe it (old corpus lines) -/
+  doc : String := ""
   deriving Repr, DecidableEq
 
 /-- `r` starts with `p` (on character lists, so that the kernel can evaluate the predicate). -/
@@ -29,13 +33,16 @@ def isParserCapacity (r : String) : Bool := pre "syntaxcap@" r || pre "err:synta
 
 /-- a generated (syntactically valid) program: first violated clause, if any. -/
 def checkProgram (o : Obs) : Option String :=
-  if isCrash o.min || isCrash o.full || isCrash o.again || isCrash o.same then some "no_crash"
-  else if isTimeout o.min || isTimeout o.full || isTimeout o.again || isTimeout o.same then none      -- `while` may diverge
-  else if isParserCapacity o.min || isParserCapacity o.full then none
+  if isCrash o.min || isCrash o.full || isCrash o.again || isCrash o.same || isCrash o.doc then some "no_crash"
+  else if isTimeout o.min || isTimeout o.full || isTimeout o.again || isTimeout o.same || isTimeout o.doc then none      -- `while` may diverge
+  else if isParserCapacity o.min || isParserCapacity o.full || isParserCapacity o.doc then none
   else if o.min != o.again then some "deterministic"
   -- "the same result every time it is evaluated in the same environment": also for ONE compiled expression evaluated twice
   -- (an Expression node must not keep state between evaluations, e.g. a container built once and handed out again)
   else if o.same != "" && o.min != o.same then some "deterministic_same_expression"
+  -- "operator precedence … as the language reference defines": a text that relies on the DOCUMENTED precedence and associativity
+  -- (parentheses only where the table of doc/17 requires them) means what its fully parenthesised form means
+  else if o.doc != "" && o.doc != o.full then some "precedence_as_documented"
   else if o.min != o.full then some "precedence_as_declared"
   else if pre "syntax" o.min then some "generated_program_parses"
   else if !(pre "v:" o.min || pre "e" o.min) then some "value_or_script_error"
@@ -159,5 +166,26 @@ def checkAgainstReference (id impl : String) (ref : Option String) (refDepth : N
   else if tagOf id == "literal" && ref.isSome && ref != some impl then some "duration_arithmetic_as_documented"
   else if tagOf id == "joinscalar" && !pre "v:" impl then some "array_join_total_on_scalars"
   else none
+
+/-! ### the examples of the document (doc/17-language-reference.md, table "Operators", column "Examples (Result)")
+
+Every `expression (result)` pair of the table is a program `[ expression, result ]` of family `docex` (corpus/C15/reference_examples.ops):
+the real evaluator must answer an array of two EQUAL values — the documented result is what the expression yields. -/
+
+/-- `r` is `v:[A,B]` with `A = B` (canonical scalars contain no comma) -/
+def pairEqual (r : String) : Bool :=
+  let cs := r.toList
+  pre "v:[" r && cs.getLast? == some ']' &&
+    (let inner := (cs.drop 3).dropLast
+     let a := inner.takeWhile (· != ',')
+     let b := (inner.dropWhile (· != ',')).drop 1
+     !a.isEmpty && a == b)
+
+/-- `reference_example_as_documented` — a documented example evaluates to its documented result (violated by the unchanged tree for
+    `~true (false)`: the code answers -2, finding F-C15g). -/
+def checkDocExample (id impl : String) : Option String :=
+  if tagOf id != "docex" then none
+  else if isCrash impl || isTimeout impl then none          -- reported by `no_crash` / not an answer
+  else if pairEqual impl then none else some "reference_example_as_documented"
 
 end Icinga.C15.Spec
